@@ -82,8 +82,12 @@ def main(argv):
             replay_target = json.load(fh)
     vcount = 0
     all_viol = []
+    seen_keys = set()
     for rep in reports:
         for v in rep.violations:
+            if (v.rule, v.key) in seen_keys:
+                continue        # the same construct reached through several paths: one finding
+            seen_keys.add((v.rule, v.key))
             all_viol.append(v)
             if replay_target and not (v.rule == replay_target["rule"] and v.key == replay_target["key"]):
                 continue
